@@ -145,7 +145,25 @@ def run(F):
                    "a binary record stored as (b, a) is silently replaced by the default" % (root, bad[0][1]))
         else:
             r.inst(iid, where, "ok", idiom="lookup with swapped fallback", lookups=len(gets))
-    r.floor("pair-keyed maps", n_maps, 4)
+    r.floor("pair-keyed maps", n_maps, 4, exact=True)
+    # the key of a binary-record map is the identifier *the user selected* (`as_string(identifier_option)`): a map keyed by the
+    # Identifier records themselves compares by whatever `impl Hash / Eq for Identifier` uses (the CAS number only), whichever
+    # kind of identifier was asked for
+    for b in F.bodies:
+        if not b.path.startswith(("feos_core::parameter", "feos::")) or "::tests::" in b.path:
+            continue
+        for bi, t in b.calls():
+            p_, tr, name = callee(t)
+            if name not in ("get", "insert", "contains_key") or not ("HashMap" in p_ or "IndexMap" in p_ or "BTreeMap" in p_) or len(t["args"]) < 2:
+                continue
+            kty = (b.opty(t["args"][1]) or {}).get("s", "").replace(" ", "")
+            if "identifier::Identifier" in kty and kty.count("identifier::Identifier") >= 2:
+                root = b.d.get("parent") if b.is_closure() else b.path
+                r.inst("pairmap|%s|identifier-key" % root, t["span"], "violation")
+                r.fail("pairmap|%s|identifier-key" % root, t["span"],
+                       "%s: a binary-record map is keyed by pairs of `Identifier` records instead of the identifier strings selected by "
+                       "`identifier_option`: two substances compare equal whenever `Identifier`'s own equality (CAS number only, None == None) "
+                       "says so, whatever identifier the user asked to match by" % root)
     canonical_keys(F, r)
     r.exhaustive = True
     return [r]
